@@ -97,6 +97,8 @@ class DiGraphEx(nx.DiGraph):
             Base Graph that will be used for the computations
         """
         graph = deepcopy(self)
+        # networkx's `subgraph(...).copy()` builds a new DiGraphEx and drops these tables
+        tables = graph.tag, graph.debug, graph.setup, graph.compound_priority
 
         # first try to heavily prune removing roots
         if root_nodes is not None:
@@ -117,6 +119,7 @@ class DiGraphEx(nx.DiGraph):
         if target_nodes is not None:
             graph = graph.minimal_induced_subgraph(target_nodes).copy()
 
+        graph.tag, graph.debug, graph.setup, graph.compound_priority = tables
         return graph
 
     @property
